@@ -65,4 +65,12 @@ size_t
 track_size(const void* p);
 // allocation failure injection is deliberately not offered (DESIGN C13)
 
+// guard allocator behind the simulated camera's malloc family
+void*
+guard_alloc(size_t align, size_t n);
+void
+guard_free(void* p);
+size_t
+guard_size(const void* p); // (size_t)-1 if not a live guarded block
+
 } // namespace simseam
